@@ -292,7 +292,28 @@ func (s *Scheme) runDKG(ctx context.Context, membership *membership, dkgProtocol
 
 	membershipConsensus := make(chan struct{})
 	ctx, cancel := context.WithCancel(ctx)
-	defer cancel()
+
+	// The topic on which the parties of the DKG agree on its membership is freed at most once, and no later than
+	// when we return: the callback may outlive us (a key generation that takes its time to notice that the context
+	// has ended), and by then the next KeyGen may have registered the very same topic.
+	var membersSyncTopic []byte
+	var membersSyncFreed bool
+	cleanupMembersSync := func() {
+		s.lock.Lock()
+		defer s.lock.Unlock()
+		if membersSyncFreed {
+			return
+		}
+		membersSyncFreed = true
+		if membersSyncTopic != nil {
+			delete(s.syncsInProgress, string(membersSyncTopic))
+		}
+	}
+
+	defer func() {
+		cancel()
+		cleanupMembersSync()
+	}()
 
 	callback := func(members []uint16) {
 		if len(members) != n {
@@ -366,15 +387,15 @@ func (s *Scheme) runDKG(ctx context.Context, membership *membership, dkgProtocol
 		})
 
 		s.lock.Lock()
+		if membersSyncFreed {
+			// KeyGen has returned already
+			s.lock.Unlock()
+			resultChan <- mpcResult{err: ctx.Err()}
+			return
+		}
+		membersSyncTopic = membersSyncTopicHash
 		s.syncsInProgress[string(membersSyncTopicHash)] = sync.HandleMessage
 		s.lock.Unlock()
-
-		// Must run before the result is handed over: once KeyGen returns, the next KeyGen may register the same topic
-		cleanupMembersSync := func() {
-			s.lock.Lock()
-			delete(s.syncsInProgress, string(membersSyncTopicHash))
-			s.lock.Unlock()
-		}
 
 		go sync.Synchronize(ctx, func([]uint16) {
 			close(membershipConsensus)
@@ -503,12 +524,25 @@ func (s *Scheme) Sign(c context.Context, msgHash []byte, topic string) ([]byte, 
 	ctx, cancel := context.WithCancel(c)
 	defer cancel()
 
+	// We will synchronize again on this topic to ensure all parties have initialized the signing instance before
+	// we actually start signing.
+	syncTopic := hash(topicHash)
+
+	// The topics are freed at most once, and no later than when we return: the callback may outlive us (a signing
+	// instance that takes its time to notice that the context has ended), and by then the next Sign on the same
+	// topic may have registered them again.
+	var freed bool
 	cleanup := func() {
 		s.lock.Lock()
+		defer s.lock.Unlock()
+		if freed {
+			return
+		}
+		freed = true
 		delete(s.syncsInProgress, string(topicHash))
+		delete(s.syncsInProgress, string(syncTopic))
 		delete(s.messageClassifiers, string(topicHash))
 		delete(s.rbcInProgress, string(topicHash))
-		s.lock.Unlock()
 	}
 
 	var signedSuccessfully uint32
@@ -540,9 +574,6 @@ func (s *Scheme) Sign(c context.Context, msgHash []byte, topic string) ([]byte, 
 			return
 		}
 
-		// We will synchronize again to ensure all parties have initialized the signing instance before
-		// we actually start signing.
-		syncTopic := hash(topicHash)
 		signersWithoutMe := excludeUniversal(UIntsToUniversalIDs(signers), s.SelfID)
 
 		sync := s.SyncFactory(signers, func(msg []byte) {
@@ -552,13 +583,21 @@ func (s *Scheme) Sign(c context.Context, msgHash []byte, topic string) ([]byte, 
 		})
 
 		s.lock.Lock()
+		if freed {
+			// Sign has returned already
+			s.lock.Unlock()
+			return
+		}
 		s.syncsInProgress[string(syncTopic)] = sync.HandleMessage
 		s.lock.Unlock()
 
 		cleanupSyncTopic := func() {
 			s.lock.Lock()
+			defer s.lock.Unlock()
+			if freed {
+				return
+			}
 			delete(s.syncsInProgress, string(syncTopic))
-			s.lock.Unlock()
 		}
 
 		s.Logger.Infof("Synchronizing on pre-signing topic %s with %v", hex.EncodeToString(syncTopic)[:8], signers)
@@ -574,7 +613,6 @@ func (s *Scheme) Sign(c context.Context, msgHash []byte, topic string) ([]byte, 
 			// Free the topic before handing over the result: once Sign returns, the topic may be signed on again,
 			// and a clean up that runs afterwards would remove the registrations of that next session
 			cleanup()
-			cleanupSyncTopic()
 
 			resultChan <- struct {
 				sig []byte
